@@ -23,8 +23,10 @@ def correspond(ctx):
     n = stats.get("lines", 0)
     for what in (stats.get("reuse_bad") or [])[:1]:
         rp = C.write_replay("C17", "reuse", {"property": "C17", "kind": "reuse-scenario", "observed": stats.get("reuse_bad"),
-                            "scenario": "1 root, limit 100: 101 Sets (the first directory fills, a second one is created), 60 Deletes of keys of the first + collector + drain, 40 Sets; the first directory must receive some of them (probability of a false alarm 2^-40)"})
-        v.append(Violation("c17-reuse", "a directory that regained room through deletions is not used again: " + what, rp))
+                            "scenario": "1 root, limit 100: 101 Sets (the first directory fills, a second one is created), 60 Deletes of keys of the first + collector + drain, 40 Sets; the first directory must receive some of them (probability of a false alarm 2^-40); dropped-root: 2 roots, 60 Sets, reopen with the first root only, 60 Deletes + collector + drain, 60 Sets: none may land under the dropped root"})
+        pre = ("content stored outside the configured roots: " if what.startswith("dropped root")
+               else "a directory that regained room through deletions is not used again: ")
+        v.append(Violation("c17-reuse", pre + what, rp))
     if not v and stats.get("max_entries_seen", 0) < 100:
         raise C.MachineryError("degenerate C17 run: no directory reached the limit (max entries seen %s)" % stats.get("max_entries_seen"))
     cov = {"evaluations": n, "distinct_nontrivial": stats.get("histories", 0) + stats.get("new_dirs", 0),
